@@ -7,6 +7,7 @@ import Driver.QCacheEng
 import Driver.StoreEng
 import Driver.PersistEng
 import Driver.ConfigEng
+import Driver.RateLimitEng
 
 open Driver
 
@@ -31,4 +32,5 @@ def main (args : List String) : IO UInt32 := do
   | ["store"] => loop stdin stdout StoreEng.step none; return 0
   | ["persist"] => loop stdin stdout PersistEng.step none; return 0
   | ["config"] => loop stdin stdout ConfigEng.step (); return 0
+  | ["ratelimit"] => loop stdin stdout RateLimitEng.step none; return 0
   | _ => IO.eprintln "usage: kyro_driver <engine>"; return 2
